@@ -46,7 +46,10 @@ RULE_ADDED = (
               'as onboarded: turned down, certificate file untouched. '
               ' '
               'Round 14: a quarter of the admin-tool environments export terminal / locale vari'
-              'ables. ')
+              'ables. '
+              ' '
+              "Round 15: a second attestation later on from the first one's file, the device ha"
+              'ving moved on; authorized-signer iterations over the whole 16-bit range. ')
 RULE = RULE + " " + RULE_ADDED.strip()
 ASSUMPTIONS = [
     "the genuine-device models in pv/simdev/genuine.py (endorsement scheme two: signatures by "
